@@ -3,6 +3,7 @@ import CE.Rules.Table
 import CE.Rules.Measure
 import CE.Rules.Counters
 import CE.Rules.Limits
+import CE.Rules.Masks
 /-
   C14 — configured resource limits are enforced exactly (validator part).
 
@@ -132,5 +133,29 @@ theorem open_containers_and_markers_stay_within_their_limits (env : Env) (evs : 
     let s := (run env RState.init evs 0).2.2
     s.depth ≤ env.cfg.maxContainerDepth ∧ s.refCount ≤ env.cfg.maxLocalRefCount ∧ s.refCount = s.marked.length :=
   run_lim env evs RState.init 0 ⟨by simp [RState.init], by simp [RState.init], by simp [RState.init]⟩
+
+/-- the marker limit bounds the number of DIFFERENT marker identifiers of a document: on any stream the
+    registered identifiers are pairwise distinct and at most MaxLocalReferenceCount many; and when a whole
+    document is accepted, the number of different identifiers its references use is within the same limit
+    (each of them is one of the registered markers) -/
+theorem distinct_markers_and_referenced_ids_within_limit (env : Env) (htbl : env.tbl = Model.ruleTable) (evs : List Ev)
+    (h : (run env RState.init (evs ++ [.endDoc]) 0).2.1 = none) (ids : List Bytes) (hnd : ids.Nodup)
+    (hids : ∀ id ∈ ids, Ev.refLocal id ∈ evs) :
+    ((run env RState.init (evs ++ [.endDoc]) 0).2.2.marked.map (·.1)).Nodup ∧
+    ((run env RState.init (evs ++ [.endDoc]) 0).2.2.marked.map (·.1)).length ≤ env.cfg.maxLocalRefCount ∧
+    ids.length ≤ env.cfg.maxLocalRefCount := by
+  generalize hs : (run env RState.init (evs ++ [.endDoc]) 0).2.2 = s
+  have hl := run_lim env (evs ++ [.endDoc]) RState.init 0 ⟨by simp [RState.init], by simp [RState.init], by simp [RState.init]⟩
+  rw [hs] at hl
+  have hd : (s.marked.map (·.1)).Nodup := by
+    have := run_distinct env (evs ++ [.endDoc]) RState.init 0 (by simp [MarkersDistinct, RState.init])
+    rw [hs] at this; exact this
+  have hlen : (s.marked.map (·.1)).length ≤ env.cfg.maxLocalRefCount := by
+    rw [List.length_map]; have := hl.2.1; have := hl.2.2; omega
+  refine ⟨hd, hlen, ?_⟩
+  have hsub : ids ⊆ s.marked.map (·.1) := fun id hid => by
+    have := accepted_references_have_markers env htbl evs h id (hids id hid)
+    rw [hs] at this; exact this
+  exact Nat.le_trans (hnd.length_le_of_subset hsub) hlen
 
 end CE.Props.C14
